@@ -128,6 +128,18 @@ use vstd::prelude::*;
 pub uninterp spec fn spec_popcount(x: u64) -> u32;
 pub assume_specification [u64::count_ones] (x: u64) -> (r: u32)
     ensures r == spec_popcount(x), r <= 64, (x & 0xEEEE_EEEE_EEEE_EEEEu64 == 0) ==> r <= 16;
+
+pub open spec fn is_pow2(x: int) -> bool { exists|e: nat| e < 32 && x == vstd::arithmetic::power2::pow2(e) }
+pub assume_specification [u32::pow] (b: u32, e: u32) -> (r: u32)
+    requires b == 2, e < 32,
+    ensures r == vstd::arithmetic::power2::pow2(e as nat), e == 24 ==> r == 0x0100_0000u32, e == 30 ==> r == 0x4000_0000u32;
+pub assume_specification [u32::next_power_of_two] (x: u32) -> (r: u32)
+    requires 0 < x <= 0x8000_0000u32,
+    ensures r >= x, r < 2 * x, is_pow2(r as int), x <= 0x0800_0000u32 ==> r <= 0x0800_0000u32;
+pub assume_specification<T, A> [std::vec::Vec::<T, A>::into_boxed_slice] (v: std::vec::Vec<T, A>) -> (r: std::boxed::Box<[T], A>)
+    where A: std::alloc::Allocator,
+    ensures r@ == v@;
+
 pub open spec fn inc_resets(s: FrequencySketch, hash: u64) -> bool {
     any_room(s.table@, s.table_mask, hash, 4) && s.size + 1 >= s.sample_size
 }
@@ -159,8 +171,8 @@ broadcast use {lemma_and_le, lemma_start, lemma_read, lemma_shl2, lemma_off, lem
 
 impl FrequencySketch {
     pub open spec fn wf(&self) -> bool {
-        self.table@.len() == 0 || (self.table@.len() == self.table_mask as nat + 1 && self.table@.len() <= 0x0800_0000
-            && self.size < self.sample_size)
+        self.size <= 0x7FFF_FFFF && self.sample_size <= 0x7FFF_FFFF
+            && (self.table@.len() == 0 || (self.table@.len() == self.table_mask as nat + 1 && self.table@.len() <= 0x0800_0000))
     }
 
     pub(crate) fn frequency(&self, hash: u64) -> (r: u8)
@@ -227,6 +239,53 @@ impl FrequencySketch {
             *entry = (*entry >> 1) & RESET_MASK;
         }
         self.size = (self.size >> 1).saturating_sub(count >> 2);
+    }
+
+
+    pub(crate) fn ensure_capacity(&mut self, cap: u32)
+        requires old(self).wf(), cap <= 0x0800_0000u32,
+        ensures final(self).wf(),
+            // C14: only grows; a resize forgets all counts (fresh zero table), otherwise nothing changes
+            final(self).table@.len() >= old(self).table@.len(),
+            final(self).table@.len() == old(self).table@.len() ==> *final(self) == *old(self),
+            final(self).table@.len() != old(self).table@.len() ==> (forall|i: int| 0 <= i < final(self).table@.len() ==> final(self).table@[i] == 0)
+                && final(self).table@.len() == final(self).table_mask + 1,
+            final(self).table@.len() >= 1,
+    {
+        // The max byte size of the table, Box<[u64; table_size]>
+        //
+        // | Pointer width    | Max size |
+        // |:-----------------|---------:|
+        // | 16 bit           |    8 KiB |
+        // | 32 bit           |  128 MiB |
+        // | 64 bit or bigger |    8 GiB |
+
+        let maximum = if cfg!(target_pointer_width = "16") {
+            cap.min(1024)
+        } else if cfg!(target_pointer_width = "32") {
+            cap.min(2u32.pow(24)) // about 16 millions
+        } else {
+            // Same to Caffeine's limit:
+            //   `Integer.MAX_VALUE >>> 1` with `ceilingPowerOfTwo()` applied.
+            cap.min(2u32.pow(30)) // about 1 billion
+        };
+        let table_size = if maximum == 0 {
+            1
+        } else {
+            maximum.next_power_of_two()
+        };
+
+        if self.table.len() as u32 >= table_size {
+            return;
+        }
+
+        self.table = vec![0; table_size as usize].into_boxed_slice();
+        self.table_mask = table_size - 1;
+        self.sample_size = if cap == 0 {
+            10
+        } else {
+            maximum.saturating_mul(10).min(i32::MAX as u32)
+        };
     }
 
     pub fn index_of(&self, hash: u64, depth: u8) -> (r: usize)
